@@ -311,7 +311,7 @@ static std::string xr(const std::string& method, std::size_t maxResp, std::size_
   cfg.maxResponseBytes = maxResp;
   cfg.jsonConfig.maxPayloadSize = jsonMax;
   cfg.reuseConnections = reuse;
-  cfg.requestTimeout = std::chrono::milliseconds(hasTimeout ? 300 : 4000);
+  cfg.requestTimeout = std::chrono::milliseconds(hasTimeout ? 300 : 1500);
   cfg.connectTimeout = std::chrono::milliseconds(20000);
   auto engOwner = std::make_unique<XrEngine>();
   XrEngine* eng = engOwner.get();
@@ -380,10 +380,10 @@ static std::string xr(const std::string& method, std::size_t maxResp, std::size_
         auto it = impl->receiveBuffers.find(sid);
         if (it != impl->receiveBuffers.end()) it->second->cv.notify_all();
       }
-      else if (e == "t" || e == "e")
-      {
-        if (e == "t") while (!done && !late()) nap();
-      }
+      // every non-data result ends the loop (F3d): nothing more is delivered until executeRequest has returned - the
+      // client still LOOKS parked until it has woken up, and bytes slipped in now would be drained before the error
+      if (!(e.size() >= 2 && e[0] == 'd' && e[1] == ':'))
+        while (!done && !late()) nap();
     }
     while (!done && !late()) nap();
     if (!done)
